@@ -178,6 +178,48 @@ theorem items_vs_consumers (P : Par) (hP : ProvedWake P.kind P.wk) (a b : Int) (
       simp at hl hlt
       omega
 
+/-- **An accepted add always wakes a waiter — also one that went back to sleep.** In ANY reachable state with a parked
+    consumer (no matter how it got there: first park, or woken by an earlier add, beaten to the item by a barging
+    `TryPop`/`Pop` and parked again), an add that is accepted moves at least one parked consumer to `woken`, and no
+    consumer disappears. The wake-up bookkeeping of the model is the code's: `Signal`/`Broadcast` on every accepted add,
+    unconditionally — there is no "already signalled" state a re-parked consumer could be stuck in. -/
+theorem accepted_add_wakes_a_waiter (P : Par) (hP : ProvedWake P.kind P.wk) (s s' : CS) (x : Nat) (w : Tid)
+    (hp : s.parked ≠ []) (h : step P s (.add x w) = some s') (hacc : s'.accepted = s.accepted ++ [x]) :
+    s'.woken ≠ [] ∧ s'.woken.length + s'.parked.length = s.woken.length + s.parked.length := by
+  have hadd := hP.1
+  have key : ∀ (s0 : CS), s0.parked = s.parked → s0.woken = s.woken → wake P.wk.add w s0 = some s' →
+      s'.woken ≠ [] ∧ s'.woken.length + s'.parked.length = s.woken.length + s.parked.length := by
+    intro s0 hp0 hw0 hwk
+    rcases wake_threads _ w s0 s' hwk with ⟨_, h1, h2⟩ | ⟨_, h0, _, _⟩ | ⟨_, e, he, h1, h2⟩ | ⟨hn, _, _⟩
+    · rw [h1, h2, hp0, hw0]
+      refine ⟨fun h0 => hp ((List.append_eq_nil_iff.1 h0).2), by simp⟩
+    · rw [hp0] at h0; exact absurd h0 hp
+    · rw [h1, h2, hp0, hw0]
+      rw [hp0] at he
+      refine ⟨by simp, ?_⟩
+      rw [List.length_erase_of_mem he]
+      have : 0 < s.parked.length := List.length_pos_of_mem he
+      simp; omega
+    · rcases hn with hn | hn <;> rw [hn] at hadd <;> cases hadd
+  simp only [step] at h
+  cases hk : P.kind <;> simp only [hk] at h
+  case syncq =>
+    split at h
+    · cases h; simp at hacc
+    · exact key { s with q := syncPush P.ssh s.q x, accepted := s.accepted ++ [x] } rfl rfl h
+  all_goals
+    unfold addLike at h
+    split at h
+    · exact key { s with q := (addReq P.sh s.q x).1, accepted := s.accepted ++ [x] } rfl rfl h
+    · cases h; simp at hacc
+
+/-- the barging history on the repaired SyncQueue: the consumer is signalled, a `TryPop` takes the item first, the
+    consumer re-parks, the next push signals it again and it returns that item -/
+example :
+    (lts ⟨.syncq, Shape.expected, SyncShape.expected, ⟨.signal, .signal, .broadcast, .none⟩⟩ (LQ.new .syncq 0 0)).run
+      (CS.init (LQ.new .syncq 0 0)) [.popCall 1 false, .add 7 1, .tryPop, .resume 1, .add 8 1, .resume 1]
+      = some ⟨LQ.new .syncq 0 0, [], [], [(1, .val 8)], [7, 8]⟩ := by decide
+
 /-- after a close the woken consumers can always run to completion: a woken thread's resume is enabled, and on a
     closed queue it returns (it never parks again) -/
 theorem resume_returns_when_closed (P : Par) (s : CS) (e : Tid × Bool) (he : s.woken.find? (fun x => x.1 == e.1) = some e)
